@@ -9,8 +9,8 @@ use std::net::{IpAddr, Ipv4Addr, Ipv6Addr, SocketAddr};
 
 use kawa::{h1::BlockConverter as H1BlockConverter, Buffer, Kawa, Kind};
 use sozu_lib::pool::{Checkout, Pool};
-use sozu_lib::protocol::kawa_h1::editor::HttpContext;
-use sozu_lib::protocol::mux::verif::{handle_header, H2BlockConverter};
+use sozu_lib::protocol::kawa_h1::editor::{HeaderEditMode, HeaderEditSnapshot, HttpContext};
+use sozu_lib::protocol::mux::verif::{apply_response_header_edits, handle_header, H2BlockConverter};
 use sozu_lib::Protocol;
 use verif_harness::*;
 
@@ -925,6 +925,71 @@ impl Headers {
         format!("ok {}", if fields.is_empty() { "_".into() } else { fields.join(",") })
     }
 
+    /// per-frontend response header edits: real `apply_response_header_edits` on a parsed response
+    fn op_respedits(&self, w: &[&str], r: &mut ImplRun) -> String {
+        // respedits <edits: hexk:hexv:mode,...> <fields>
+        let edits: Vec<(Vec<u8>, Vec<u8>, char)> = if w[1] == "_" {
+            vec![]
+        } else {
+            w[1].split(',')
+                .map(|e| {
+                    let f: Vec<&str> = e.split(':').collect();
+                    (unhex(f[0]), unhex(f[1]), f[2].chars().next().unwrap_or('a'))
+                })
+                .collect()
+        };
+        let input: Vec<Hdr> = unhl(w[2]);
+        let mut resp = b"HTTP/1.1 200 OK\r\n".to_vec();
+        for (k, v) in &input {
+            resp.extend_from_slice(&[k.as_slice(), b": ", v.as_slice(), b"\r\n"].concat());
+        }
+        resp.extend_from_slice(b"\r\n");
+        let mut pool = Pool::with_capacity(1, 1, BUF);
+        let mut kawa = Kawa::new(Kind::Response, Buffer::new(pool.checkout().expect("checkout")));
+        kawa.storage.write_all(&resp).expect("write");
+        kawa::h1::parse(&mut kawa, &mut NoOp);
+        if kawa.is_error() {
+            return "rejected".into();
+        }
+        let snaps: Vec<HeaderEditSnapshot> = edits
+            .iter()
+            .map(|(k, v, m)| HeaderEditSnapshot {
+                key: k.clone(),
+                val: v.clone(),
+                mode: match m {
+                    'i' => HeaderEditMode::SetIfAbsent,
+                    's' => HeaderEditMode::Set,
+                    _ => HeaderEditMode::Append,
+                },
+            })
+            .collect();
+        apply_response_header_edits(&mut kawa, &snaps);
+        kawa.prepare(&mut H1BlockConverter);
+        let out = out_bytes(&kawa);
+        let Some((_, lines)) = header_lines(&out) else { return format!("unreadable {}", hex(&out)) };
+        r.tags.push("respedits".into());
+        if self.c13() {
+            // only what an edit names may disappear; only what an edit carries may appear
+            let dropped = |k: &[u8]| edits.iter().any(|(ek, ev, m)| eq_nc(ek, k) && (*m == 's' || (*m == 'a' && ev.is_empty())));
+            let survivors: Vec<Hdr> = input.iter().filter(|(k, _)| !dropped(k)).cloned().collect();
+            if lines.len() < survivors.len() || lines[..survivors.len()] != survivors[..] {
+                r.oracle.push(("response-edit-removed-unnamed".into(), format!("backend sent {} client gets {}", show_hl(&input), show_hl(&lines))));
+            }
+            for (k, v) in lines.iter().skip(survivors.len()) {
+                if !edits.iter().any(|(ek, ev, _)| ek == k && ev == v) {
+                    r.oracle.push(("response-edit-undeclared-addition".into(), format!("`{}: {}` is not an operator edit", lossy(k), lossy(v))));
+                }
+            }
+            for (ek, _, m) in &edits {
+                if *m == 'i' && input.iter().any(|(k, _)| eq_nc(k, ek)) && lines.iter().filter(|(k, _)| eq_nc(k, ek)).count() != input.iter().filter(|(k, _)| eq_nc(k, ek) && !dropped(k)).count() {
+                    r.oracle.push(("response-edit-set-if-absent".into(), format!("`{}` was present but a SetIfAbsent edit changed it", lossy(ek))));
+                }
+            }
+        }
+        let fields = lines.iter().map(|(k, v)| format!("{}:{}", hex(k), hex(v))).collect::<Vec<_>>();
+        format!("ok {}", if fields.is_empty() { "_".into() } else { fields.join(",") })
+    }
+
     /// H1 frontend: real `kawa::h1::parse` with the real editor as callbacks, fed
     /// segment by segment; what is forwarded is re-read by the strict reader
     fn op_h1(&self, w: &[&str], r: &mut ImplRun) -> String {
@@ -1196,11 +1261,12 @@ impl Area for Headers {
                 ("h1", 3) => self.op_h1(&w, &mut r),
                 ("edit", 8) => self.op_edit(&w, &mut r),
                 ("resp", 3) => self.op_resp(&w, &mut r),
+                ("respedits", 3) => self.op_respedits(&w, &mut r),
                 _ => "bad-op".to_string(),
             };
             r.out.push(line);
         }
-        r.nontrivial = r.tags.iter().any(|t| t.starts_with("h2:") || t.starts_with("edit:") || t == "resp" || t.starts_with("h1:"));
+        r.nontrivial = r.tags.iter().any(|t| t.starts_with("h2:") || t.starts_with("edit:") || t == "resp" || t == "respedits" || t.starts_with("h1:"));
         r
     }
     fn classify_mismatch(&self, ops: &[String], impl_out: &[String], model_out: &[String]) -> String {
